@@ -130,10 +130,17 @@ type connObs struct {
 	HandshakeOK  bool      `json:"handshake_ok,omitempty"`
 	HandshakeErr string    `json:"handshake_err,omitempty"`
 	HTTP         []httpObs `json:"http,omitempty"`
+	// Seq: order of arrival among the connection records of the case.
+	// Cleartext: the connection of a TLS based scheme did not start with a TLS
+	// record but with this plain-text HTTP request line / Host header.
+	Seq       int    `json:"seq"`
+	Cleartext string `json:"cleartext,omitempty"`
 }
 
 type Obs struct {
 	Conns []*connObs `json:"connections,omitempty"`
+	// Hostile: what the server-behaviour dimension played and saw (hostile.go)
+	Hostile *hostileObs `json:"server_behaviour,omitempty"`
 
 	UDPDatagrams  int        `json:"udp_datagrams,omitempty"`
 	TCPAccepts    int        `json:"tcp_accepts,omitempty"`
@@ -174,6 +181,9 @@ type caseRes struct {
 	httpFeed   *feedListener
 	httpServer *http.Server
 	httpDone   sync.Map // net.Conn -> chan struct{} closed when the HTTP server is done with it
+
+	// server-behaviour dimension (hostile.go)
+	seqHTTP, seqQUIC int // connections handed to the HTTP server / accepted QUIC connections so far
 }
 
 func (cr *caseRes) note(f func(o *Obs)) {
@@ -206,7 +216,7 @@ func (cr *caseRes) connOf(proto string, port int, via string) *connObs {
 			return co
 		}
 	}
-	co := &connObs{Proto: proto, RemotePort: port, Via: via}
+	co := &connObs{Proto: proto, RemotePort: port, Via: via, Seq: len(cr.obs.Conns)}
 	if len(cr.obs.Conns) < 4096 {
 		cr.obs.Conns = append(cr.obs.Conns, co)
 	}
@@ -218,6 +228,7 @@ func (cr *caseRes) connOf(proto string, port int, via string) *connObs {
 func (cr *caseRes) newConn(proto string, port int, via string) *connObs {
 	co := &connObs{Proto: proto, RemotePort: port, Via: via}
 	cr.mu.Lock()
+	co.Seq = len(cr.obs.Conns)
 	if len(cr.obs.Conns) < 4096 {
 		cr.obs.Conns = append(cr.obs.Conns, co)
 	}
@@ -273,6 +284,9 @@ func (cr *caseRes) open() {
 	if c.Scheme == "https" {
 		cr.httpFeed = newFeedListener()
 		cr.httpServer = &http.Server{Handler: cr.httpHandler("tcp"), ReadHeaderTimeout: 5 * time.Second}
+		if c.Srv != "" {
+			cr.httpServer.ConnContext = cr.tagTCPConn
+		}
 		cr.httpServer.ConnState = func(c net.Conn, st http.ConnState) {
 			if st == http.StateClosed || st == http.StateHijacked {
 				if ch, ok := cr.httpDone.LoadAndDelete(c); ok {
@@ -301,6 +315,12 @@ func (cr *caseRes) open() {
 		// also for schemes that are documented to ignore the option: the proxy is
 		// then a decoy that records whatever reaches it
 		cr.openSocks()
+	}
+	if c.Srv != "" {
+		cr.obs.Hostile = &hostileObs{}
+		if c.Scheme == "https" || c.Scheme == "h3" {
+			cr.openDecoy()
+		}
 	}
 	if c.Via == "socks5" {
 		return
@@ -376,8 +396,8 @@ func (cr *caseRes) answer(q []byte, truncated bool) []byte {
 	return r
 }
 
-func (cr *caseRes) serveStreamDNS(c net.Conn) {
-	for {
+func (cr *caseRes) serveStreamDNS(c net.Conn, co *connObs) {
+	for n := 0; ; n++ {
 		var h [2]byte
 		if _, err := io.ReadFull(c, h[:]); err != nil {
 			return
@@ -385,6 +405,10 @@ func (cr *caseRes) serveStreamDNS(c net.Conn) {
 		n := int(binary.BigEndian.Uint16(h[:]))
 		buf := make([]byte, n)
 		if _, err := io.ReadFull(c, buf); err != nil {
+			return
+		}
+		if cr.c.Srv == "conn-close" && cr.c.SrvVariant == "close-without-reply" && co.Seq%2 == 0 {
+			cr.played(fmt.Sprintf("connection #%d closed after reading a query, without reply", co.Seq))
 			return
 		}
 		r := cr.answer(buf, false)
@@ -395,6 +419,10 @@ func (cr *caseRes) serveStreamDNS(c net.Conn) {
 		binary.BigEndian.PutUint16(out, uint16(len(r)))
 		copy(out[2:], r)
 		if _, err := c.Write(out); err != nil {
+			return
+		}
+		if cr.c.Srv == "conn-close" && cr.c.SrvVariant == "reply-then-close" {
+			cr.played(fmt.Sprintf("connection #%d closed right after its first reply", co.Seq))
 			return
 		}
 	}
@@ -449,6 +477,7 @@ func (cr *caseRes) listenTCP(la netip.AddrPort) error {
 					o.LocalAddrs = append(o.LocalAddrs, "tcp:"+c.LocalAddr().String())
 				}
 			})
+			cr.arrival()
 			co := cr.newConn("tcp", addrPort(c.RemoteAddr()), "direct")
 			cr.goHandle(c, func(c net.Conn) { cr.serveTCPConn(c, co) })
 		}
@@ -460,20 +489,32 @@ func (cr *caseRes) listenTCP(la netip.AddrPort) error {
 func (cr *caseRes) serveTCPConn(c net.Conn, co *connObs) {
 	switch cr.c.Scheme {
 	case "", "udp", "tcp", "tcp+pipeline":
-		cr.serveStreamDNS(c)
+		cr.serveStreamDNS(c, co)
 	case "tls", "tls+pipeline", "https":
 		if cr.tlsCfg == nil {
+			return
+		}
+		// a TLS based upstream must open with a TLS record; a plain-text HTTP
+		// request here is recorded (and never served)
+		c, clear := sniffCleartext(c)
+		if clear != "" {
+			cr.note(func(o *Obs) { co.Cleartext = clear })
 			return
 		}
 		cfg := cr.tlsCfg.Clone()
 		if cr.c.Scheme == "https" {
 			cfg.NextProtos = []string{"h2", "http/1.1"}
 		}
+		refuse := cr.hostileTLS(cfg, co)
 		cfg.GetConfigForClient = func(h *tls.ClientHelloInfo) (*tls.Config, error) {
 			cr.note(func(o *Obs) {
 				o.TLSHellos = append(o.TLSHellos, h.ServerName)
 				co.HelloSeen, co.SNI = true, h.ServerName
 			})
+			if refuse {
+				cr.played(fmt.Sprintf("TLS handshake of connection #%d refused after the ClientHello", co.Seq))
+				return nil, errors.New("c18: handshake refused by the hostile server")
+			}
 			return nil, nil
 		}
 		tc := tls.Server(c, cfg)
@@ -488,6 +529,10 @@ func (cr *caseRes) serveTCPConn(c net.Conn, co *connObs) {
 			return
 		}
 		cr.note(func(o *Obs) { o.HandshakesOK++; co.HandshakeOK = true })
+		if cr.c.Srv == "conn-close" && cr.c.SrvVariant == "close-after-handshake" && co.Seq%2 == 0 {
+			cr.played(fmt.Sprintf("connection #%d closed right after the TLS handshake", co.Seq))
+			return
+		}
 		if cr.c.Scheme == "https" {
 			// hand the established TLS connection to the HTTP server and wait
 			// until it is done with it
@@ -504,7 +549,7 @@ func (cr *caseRes) serveTCPConn(c net.Conn, co *connObs) {
 			}
 			return
 		}
-		cr.serveStreamDNS(tc)
+		cr.serveStreamDNS(tc, co)
 	}
 }
 
@@ -534,6 +579,9 @@ func (cr *caseRes) httpHandler(via string) http.Handler {
 				co.HandshakeOK = true
 			}
 		})
+		if cr.hostileHTTP(w, r) {
+			return
+		}
 		var q []byte
 		if r.Method == http.MethodPost {
 			q, _ = io.ReadAll(io.LimitReader(r.Body, 65535))
@@ -560,11 +608,15 @@ func (cr *caseRes) quicTLS(alpn ...string) *tls.Config {
 		if h.Conn != nil {
 			port = addrPort(h.Conn.RemoteAddr())
 		}
+		cr.arrival()
 		co := cr.connOf("quic", port, "direct")
 		cr.note(func(o *Obs) {
 			o.QUICHellos = append(o.QUICHellos, h.ServerName)
 			co.HelloSeen, co.SNI = true, h.ServerName
 		})
+		if cr.c.Srv == "alpn" {
+			cr.played(fmt.Sprintf("QUIC server offers only ALPN %v", alpn))
+		}
 		return nil, nil
 	}
 	return cfg
@@ -579,7 +631,14 @@ func (cr *caseRes) listenDoQ(la netip.AddrPort) error {
 		return err
 	}
 	tr := &quic.Transport{Conn: pc}
-	ln, err := tr.Listen(cr.quicTLS("doq"), &quic.Config{MaxIdleTimeout: 5 * time.Second})
+	alpn := "doq"
+	if cr.c.Srv == "alpn" {
+		alpn = "doq-i03"
+	}
+	if cr.c.Srv == "quic-retry" {
+		tr.VerifySourceAddress = cr.demandRetry
+	}
+	ln, err := tr.Listen(cr.quicTLS(alpn), &quic.Config{MaxIdleTimeout: 5 * time.Second})
 	if err != nil {
 		pc.Close()
 		return err
@@ -601,10 +660,22 @@ func (cr *caseRes) listenDoQ(la netip.AddrPort) error {
 					o.LocalAddrs = append(o.LocalAddrs, "quic:"+conn.LocalAddr().String())
 				}
 			})
+			seq := cr.nextSeq(&cr.seqQUIC)
+			if cr.c.Srv == "conn-close" && cr.c.SrvVariant == "close-after-handshake" && seq%2 == 0 {
+				cr.played(fmt.Sprintf("QUIC connection #%d closed right after the handshake", seq))
+				_ = conn.CloseWithError(0, "")
+				continue
+			}
 			go func() {
-				for {
+				for n := 0; ; n++ {
 					st, err := conn.AcceptStream(ctx)
 					if err != nil {
+						return
+					}
+					cr.arrival()
+					if cr.c.Srv == "conn-close" && ((cr.c.SrvVariant == "close-without-reply" && seq%2 == 0) || (cr.c.SrvVariant == "reply-then-close" && n > 0)) {
+						cr.played(fmt.Sprintf("QUIC connection #%d closed on its query #%d, without reply", seq, n))
+						_ = conn.CloseWithError(2, "")
 						return
 					}
 					go func() {
@@ -641,6 +712,9 @@ func (cr *caseRes) listenH3(la netip.AddrPort) error {
 	pc, err := net.ListenUDP("udp", net.UDPAddrFromAddrPort(la))
 	if err != nil {
 		return err
+	}
+	if cr.c.Srv != "" {
+		return cr.listenH3Hostile(pc)
 	}
 	srv := &http3.Server{
 		TLSConfig:  http3.ConfigureTLSConfig(cr.quicTLS()),
@@ -689,6 +763,7 @@ func (cr *caseRes) serveSocks(c net.Conn) {
 	if _, err := c.Write([]byte{5, 0, 0, 1, 0, 0, 0, 0, 0, 0}); err != nil {
 		return
 	}
+	cr.arrival()
 	cr.serveTCPConn(c, cr.newConn("tcp", addrPort(c.RemoteAddr()), "socks5"))
 }
 
